@@ -227,6 +227,11 @@ Section Rec.
         ++ [LOutcome o (r_id r) (r_tags r) (r_details r); LStopTest (r_id r); LTags [] (r_tags r)]
     end.
 
+  (* the log without the tags() calls (what the correspondence compares; the tags current at each
+     outcome are part of LOutcome) *)
+  Definition is_tags (l : logev) : bool := match l with LTags _ _ => true | _ => false end.
+  Definition strip (log : list logev) : list logev := filter (fun l => negb (is_tags l)) log.
+
   Definition not_exists (e : event) : bool :=
     match e_status e with Some Exists => false | _ => true end.
 
@@ -248,4 +253,4 @@ Arguments consume_from {M CT}. Arguments consume {M CT}.
 Arguments gather {CT}. Arguments summarize {M CT}.
 Arguments LStartRun {CT}. Arguments LStopRun {CT}. Arguments LTime {CT}. Arguments LTags {CT}.
 Arguments LStartTest {CT}. Arguments LOutcome {CT}. Arguments LStopTest {CT}. Arguments LKeyError {CT}.
-Arguments opt_time {CT}. Arguments replay {CT}. Arguments not_exists {M}. Arguments s2e_log {M CT}.
+Arguments opt_time {CT}. Arguments replay {CT}. Arguments is_tags {CT}. Arguments strip {CT}. Arguments not_exists {M}. Arguments s2e_log {M CT}.
